@@ -81,9 +81,8 @@ fn @name@() {
     # ---------------------------------------------------------------- suprasegmental alphas: stress
     stress_shapes = [("stress", "[Some(k), None]", False), ("stress_inv", "[Some(k), None]", True), ("secstress", "[None, Some(k)]", False), ("secstress_inv", "[None, Some(k)]", True)]
     if tier == "quick":
-        # `αstress` carries the known finding and is always run; of the other three one inverted shape per run, the
-        # `-αsecstress` one on even seeds and by default
-        stress_shapes = [stress_shapes[0], stress_shapes[3] if seed % 2 == 0 else stress_shapes[1], stress_shapes[2]][:2 + (seed % 2)]
+        # `αstress` (it carries the known finding) and `-αsecstress` are always run; `-αstress` / `αsecstress` alternate
+        stress_shapes = [stress_shapes[0], stress_shapes[3], [stress_shapes[1], stress_shapes[2]][seed % 2]]
     for (tag, arr, inv_) in stress_shapes:
         nm = "c07_supra_alpha_roundtrip_" + tag
         hs.append(G.H(nm, "supra-alpha-roundtrip", "subrule", G.T(HDR + """
@@ -206,7 +205,7 @@ fn c07_var_match_context() {
 
     # ---------------------------------------------------------------- syllable variables: identical syllable only
     HDRS = "#[kani::proof]\n" + G.STUB_RS + "\n#[kani::unwind(8)]"
-    sv_shapes = [(3, 2, False), [(2, 3, True), (1, 2, True), (2, 2, True)][seed % 3]] if tier == "quick" else [(k, m, f) for k in (1, 2, 3) for m in (1, 2, 3) for f in (True, False)]
+    sv_shapes = [(3, 2, False), (2, 2, True), [(2, 3, True), (1, 2, True)][seed % 2]] if tier == "quick" else [(k, m, f) for k in (1, 2, 3) for m in (1, 2, 3) for f in (True, False)]
     for (k, m, fw) in sv_shapes:
         nm = "c07_syllvar_match_context_%d_%d_%s" % (k, m, "fw" if fw else "bw")
         cs = ["c%d" % i for i in range(k)]
